@@ -3,6 +3,7 @@ package main
 import (
 	"fmt"
 	"go/token"
+	"go/types"
 	"sort"
 	"strings"
 
@@ -302,7 +303,8 @@ func ruleC16_4(c *Ctx) {
 					}
 					var hit *ssa.Global
 					derives(rv, func(v ssa.Value) bool {
-						if g, ok := v.(*ssa.Global); ok && g.Pkg == sp {
+						// a package-level variable of any package: a dependency's exported default list is shared just the same
+						if g, ok := v.(*ssa.Global); ok && (g.Pkg == sp || (g.Pkg != nil && isRefType(g.Type().(*types.Pointer).Elem()))) {
 							hit = g
 							return true
 						}
